@@ -36,7 +36,7 @@ def run(ctx):
         got, _ = ad.impl(c)
         want = ff.property_expected(c)
         if want is not None and got != want:
-            fails.append({"kind": "predicate", "function": "flat_line_test", "case": c, "impl": got, "property": want,
+            fails.append({"kind": "predicate", "function": "flat_line_test", "case": c, "impl": got, "spec": want,
                           "clause": "flags differ from the property with k = floor(threshold / D) for the true (fractional) step D"})
     out["failures"] += fails
     out["evaluations"] += len(fr)
